@@ -226,8 +226,12 @@ def run_history(case, env, res, ctx):
 
     from ..lib import set_terminal, style_classes
 
+    import term_image
+
     rnd = random.Random(case["seed"])
     set_terminal(env, 40, 14, 4, 8)
+    if ctx.get("font_changed"):
+        term_image.set_cell_ratio(ctx.pop("font_changed"))
     cls = style_classes()[case["style"]]
     tmpdir, opened, server = ctx["tmpdir"], ctx["opened"], ctx["server"]
     n = case["frames"]
@@ -281,6 +285,15 @@ def run_history(case, env, res, ctx):
                     total = n * repeat if repeat > 0 else 10**9
                     passes = 0
                     for s in range(steps):
+                        if s == case.get("font_at") and not ctx.get("font_changed"):
+                            # the font changes in the middle of the iteration (cell ratio
+                            # for the text styles, cell size for the graphics styles; the
+                            # terminal keeps its size in cells): frames still equal what
+                            # formatting them directly gives *now*
+                            ctx["font_changed"] = term_image.get_cell_ratio()
+                            term_image.set_cell_ratio(case["font_ratio"])
+                            set_terminal(env, 40, 14, *case["font_cell"])
+                            res.count("iterations with a font change between two frames")
                         if s in seeks and yielded:
                             pos = seeks[s] % n
                             it.seek(pos)
@@ -666,7 +679,7 @@ def gen(rnd, persona):
             ops.append(["n_frames"])
         else:
             ops.append(["seek", rnd.randrange(5)])
-    return dict(kind="history", style=style, frames=n, fmt=fmt, src=[rnd.randint(2, 10), rnd.randint(2, 10)], source=rnd.choice(["file", "file", "pil", "url"]), size_kw=rnd.choice([dict(width=3, height=2), dict(width=4), {}, dict(height=2)]), size_enum=rnd.choice([None, None, "FIT", "AUTO"]), spec=spec, ops=ops, seed=rnd.getrandbits(32))
+    return dict(kind="history", style=style, frames=n, fmt=fmt, src=[rnd.randint(2, 10), rnd.randint(2, 10)], source=rnd.choice(["file", "file", "pil", "url"]), size_kw=rnd.choice([dict(width=3, height=2), dict(width=4), {}, dict(height=2)]), size_enum=rnd.choice([None, None, "FIT", "AUTO"]), spec=spec, ops=ops, seed=rnd.getrandbits(32), **(dict(font_at=rnd.randint(1, 2 * n), font_ratio=rnd.choice([0.25, 1.0, 0.8]), font_cell=rnd.choice([[4, 8], [8, 8], [4, 16], [6, 10]])) if rnd.random() < 0.25 else {}))
 
 
 def gen_fault(rnd):
